@@ -154,6 +154,16 @@ static void case_pca(vh_ctx *c)
   /* finite but extreme magnitudes: sums of squares overflow (or underflow to 0); nothing but termination is demanded there */
   int extreme = vh_coin(c, 0.06) ? (vh_coin(c, 0.5) ? 1 : -1) : 0;
   if (extreme) { ld f = extreme > 0 ? 1e160L : 1e-170L; for (i = 0; i < n * p; i++) X->a[i] = (ld)(double)((X->a[i] + (ld)(i % 7 + 1)) * f); }
+  /* uncentred data whose second direction lives in constant columns only (side PRNG stream; the class of the finding repaired by the
+     "largest sum of squares" start fallback): columns a_j * (+1,-1,+1,...) dominate, one or two constant columns carry the rest; rank 2 */
+  { vh_ctx cc = *c; cc.s[1] ^= 0xB5026F5AA96619E9ULL; (void)vh_u64(&cc); (void)vh_u64(&cc);
+    if (!extreme && p >= 2 && vh_coin(&cc, 0.08)) {
+      size_t nc = p >= 3 && vh_coin(&cc, 0.4) ? 2 : 1, jj; n = 2 * (size_t)vh_int(&cc, 1, 4); scaling = -1;
+      ldm_free(X); X = ldm_new(n, p);
+      for (jj = 0; jj < p; jj++) { ld a = jj < p - nc ? (ld)vh_int(&cc, 2, 9) * (vh_coin(&cc, 0.5) ? 1 : -1) * 0.5L : 0, v = jj < p - nc ? 0 : (ld)vh_int(&cc, 1, 2) * (vh_coin(&cc, 0.5) ? 1 : -1); for (i = 0; i < n; i++) LM(X, i, jj) = a * ((i & 1) ? -1 : 1) + v; }
+      kind = 2; pert = 0; r = 2;
+      vh_obs("pca_cases_with_the_rest_in_constant_columns", 1);
+    } }
   mx = matrix_of_ldm(X);
   if (c->verbose) { size_t a_, b_; fprintf(stderr, "PCA input %zu x %zu\n", n, p); for (a_ = 0; a_ < n; a_++) { for (b_ = 0; b_ < p; b_++) fprintf(stderr, "%.17g ", mx->data[a_][b_]); fprintf(stderr, "\n"); } }
   npc = (size_t)vh_int(c, 1, (long)p + 2);
